@@ -46,7 +46,7 @@ pub fn vprepare(src: &str, hist: &mut Hist) -> Result<VPrepared, String> {
                                 funcs.push((
                                     child.0,
                                     ir.function_registry.get_function_name(child).to_string(),
-                                    names.get_name_leaf(ir::name_generator::NameSymbol::Function(child)).to_string(),
+                                    names.get_name_qualified(ir::name_generator::NameSymbol::Function(child)).0.join("::"),
                                 ));
                             }
                         }
@@ -59,13 +59,13 @@ pub fn vprepare(src: &str, hist: &mut Hist) -> Result<VPrepared, String> {
                     funcs.push((
                         id.0,
                         ir.function_registry.get_function_name(*id).to_string(),
-                        names.get_name_leaf(ir::name_generator::NameSymbol::Function(*id)).to_string(),
+                        names.get_name_qualified(ir::name_generator::NameSymbol::Function(*id)).0.join("::"),
                     ));
                 }
             }
             ir::RootDefinition::GlobalVariable(id) => {
                 let g = &ir.global_registry[id.0 as usize];
-                let name = names.get_name_leaf(ir::name_generator::NameSymbol::GlobalVariable(*id)).to_string();
+                let name = names.get_name_qualified(ir::name_generator::NameSymbol::GlobalVariable(*id)).0.join("::");
                 let mut v = vec![a(&id.0.to_string())];
                 if g.storage_class != ir::GlobalStorage::Static {
                     v.push(node("unsupported", vec![a("GlobalStorage")]));
@@ -300,10 +300,7 @@ fn vrun_program_inner(src: &str, only: Option<(&str, &[Vec<VV>])>, nvec: usize, 
             match m {
                 Ok(Ok(m)) => {
                     let tc = TConv::new(m);
-                    Ok(m.root_definitions.iter().find_map(|rd| match rd {
-                        rssl_ast::RootDefinition::Function(fd) if &fd.name.node == emitted => Some(tc.func(fd)),
-                        _ => None,
-                    }))
+                    Ok(tc.find_function(&m.root_definitions, "", emitted).map(|fd| tc.func(fd)))
                 }
                 Ok(Err(_)) => Err("generate-error".into()),
                 Err(pn) => Err(format!("panic {}", pn)),
